@@ -393,6 +393,7 @@ def run(ck):
     thms = list(THEOREMS) + [n for n in names if n not in THEOREMS]
     ck.print_assumptions(["DSP.C08"], ["DSP.C08." + t for t in thms])
     ck.source_tie("parser")
+    ck.source_tie("include")
     ck.hygiene()
     ck.ocaml_build()
     ck.harness_build(["c08"])
